@@ -359,6 +359,21 @@ def load_pp():
 # spec: ['S', c] scalar | ['F', kind, p0, p1, p2] function of the radius (arfun)
 # ctor: ['ctor', shape, spec] | ['default'] (= ShapeFactor()) | ['pp'] (PrecipitateParameters(...).shapeFactor)
 # op:   ['ar', spec] setAspectRatio | ['shape', shape, spec, via] | ['spherical']
+DESC_CLS = {'needle': 'NeedleDescription', 'plate': 'PlateDescription', 'cuboid': 'CuboidalDescription', 'sphere': 'SphereDescription'}
+
+
+def set_via_description(sf, shape, ar, const):
+    """the shape entered through the public `description` property setter and the aspect ratio through setAspectRatio - for a constant
+    aspect ratio the description is assigned AFTER the aspect ratio, for a function before it; either way the object is in the state
+    setPrecipitateShape(shape, ar) leaves it in (the model's shape op)"""
+    mod = sys.modules.get(type(sf).__module__) or load()          # the by-path copy is not registered in sys.modules
+    cls = getattr(mod, DESC_CLS[shape])
+    if const:
+        sf.setAspectRatio(ar); sf.description = cls()
+    else:
+        sf.description = cls(); sf.setAspectRatio(ar)
+
+
 class Counted:
     """an aspect-ratio function that records the radii it is called with (public observation of which search runs)"""
     def __init__(self, kind, p0, p1, p2):
@@ -394,6 +409,8 @@ def build_history(SF, case):
                 sf.setPrecipitateShape(CLS_NAME[shape], last)
             elif op[3] == 'NAME':
                 sf.setPrecipitateShape(CLS_NAME[shape].upper(), last)
+            elif op[3] == 'descr':
+                set_via_description(sf, shape, last, spec[0] == 'S')
             else:
                 getattr(sf, SETTER[shape])(last)       # setNeedleShape / setPlateShape / setCuboidalShape
         else:
@@ -568,6 +585,8 @@ def run_rhist(SF, case, check=True):
                 sf.setPrecipitateShape(CLS_NAME[shape], realize_vec(spec))
             elif op[3] == 'NAME':
                 sf.setPrecipitateShape(CLS_NAME[shape].upper(), realize_vec(spec))
+            elif op[3] == 'descr':
+                set_via_description(sf, shape, realize_vec(spec), spec[0] == 'S')
             else:
                 getattr(sf, SETTER[shape])(realize_vec(spec))
         elif t == 'spherical':
@@ -727,7 +746,7 @@ def gen_rhist_case(rng, allow_pp=True):
             ops.append(['ar', gen_vspec(rng, Rs)])
         elif o < 0.93:
             sh = shp()
-            via = rng.choice(['name', 'name', 'NAME', 'method']) if sh != 'sphere' else 'name'
+            via = rng.choice(['name', 'descr', 'NAME', 'method']) if sh != 'sphere' else 'name'
             ops.append(['shape', sh, gen_vspec(rng, Rs), via])
         else:
             ops.append(['spherical'])
@@ -932,7 +951,7 @@ def gen_hist_case(rng, allow_pp=True):
             ops.append(['ar', gen_spec(rng, Rs, force)])
         elif o < 0.92:
             sh = shp()
-            via = rng.choice(['name', 'name', 'NAME', 'method']) if sh != 'sphere' else 'name'
+            via = rng.choice(['name', 'descr', 'NAME', 'method']) if sh != 'sphere' else 'name'
             ops.append(['shape', sh, gen_spec(rng, Rs, force), via])
         else:
             ops.append(['spherical'])
